@@ -211,6 +211,13 @@ func (m *Model) final(d string, ended map[string]bool, g *GraphCfg) bool {
 			return true
 		}
 		if s.Inner != nil {
+			// a nested pipeline is final once it was started (its own dependencies are final)
+			// and every inner stage is final
+			for _, dd := range s.Deps {
+				if !m.final(dd, ended, g) {
+					return false
+				}
+			}
 			for _, in := range s.Inner.Stages {
 				if !m.final(in.Name, ended, s.Inner) {
 					return false
